@@ -322,6 +322,10 @@ def judge(ck, schema, sdl, classes, text, opname, label, doc, a0, a1, a2):
             ck.count("skipped_rule_raised")
             ck.count(f"raised_{name}_{a[1]}")
             impl_silent = False
+            if model.get(code):
+                ck.violation(f"model13-raised:{name}:{text!r}",
+                             f"{name} raised {a[1]} where the model reports {fmt(model.get(code))} on {text[:160]!r}",
+                             dict(replay, relation="rule = Valid/Rules13.v: the rule raises instead of reporting", rule=name))
             continue
         if a:
             impl_silent = False
